@@ -248,7 +248,18 @@ C05Scen(v, strict, ds, dupAt, destDelay) ==
      path |-> PathOf([t \in 1..4 |->
                 IF t = 4 THEN <<[form |-> DestForm1(v), delay_us |-> destDelay, dup |-> IF dupAt = 4 THEN 1 ELSE 0, dup_us |-> 377000]>>
                 ELSE <<[form |-> "te", from |-> Router(v, t), delay_us |-> ds[t], dup |-> IF dupAt = t THEN 1 ELSE 0, dup_us |-> 377000]>>])]
+\* serial engine: a direct reply that arrives only in the NEXT probe's window (slower than the per-TTL timeout), and a router
+\* reply that late; in Paris mode it answers the earlier probe only
+C05Late(v, form, which) ==
+    [variant |-> v, strict |-> TRUE, min |-> 1, max |-> 4, timeout_ms |-> 3000, delay_ms |-> 250,
+     ipid_base |-> 41821, echo_base |-> 40000, seq_base32 |-> <<4660, 22136>>, isn32 |-> <<4660, 22136>>, sack_perm |-> TRUE, sack_ts |-> FALSE,
+     id |-> "C05/late/" \o v \o "/" \o form \o "/" \o ToString(which), label |-> v \o "/late_" \o form \o "/ttl" \o ToString(which),
+     path |-> PathOf([t \in 1..4 |->
+                IF t = which THEN <<[form |-> form, from |-> IF form = "te" THEN Router(v, t) ELSE "TARGET", delay_us |-> 3000000 + 150700]>>
+                ELSE IF t = 4 THEN <<[form |-> "synack", delay_us |-> 800300]>>
+                ELSE <<[form |-> "te", from |-> Router(v, t), delay_us |-> 20100 * t]>>])]
 C05All(u) == { C05Scen(v, TRUE, ds, du, dd) : v \in Variants, ds \in [1..3 -> DelaySet], du \in 0..4, dd \in {9100, 601300} }
+             \cup { C05Late(v, f, w) : v \in {"tcp", "tcp_paris"}, f \in {"synack", "rstack", "rst", "te"}, w \in {2, 3} }
 
 ---------------------------------------------------------------------------
 (***************************************************************************)
